@@ -1300,6 +1300,8 @@ def _plain(x, m=None):
         return 'sym(%s)' % z3.simplify(x.e)
     if isinstance(x, SStr):
         return 'str(%s)' % _plain(x.v, m)
+    if type(x).__name__ == 'SFmt':
+        return x.template % tuple(_plain(a, m) for a in x.args)
     if isinstance(x, SBuf):
         out = []
         for p in x.pieces:
@@ -1330,6 +1332,8 @@ def eval_obs(x, m):
         return z3.is_true(m.eval(x.e, model_completion=True))
     if isinstance(x, SStr):
         return str(eval_obs(x.v, m))
+    if type(x).__name__ == 'SFmt':
+        return x.template % tuple(eval_obs(a, m) for a in x.args)
     if isinstance(x, SBuf):
         out = b''
         for p in x.pieces:
